@@ -313,6 +313,56 @@ fn run_groups_lib(level: usize, groups: &[Vec<Cfg>], rng: &mut Rng, rep: &mut Re
     }
 }
 
+/// Alternatives of one type under one name, each in a file of its own (`platform_a.rs` with `#![cfg(target_os = "a")]`,
+/// `platform_b.rs` ..) or guarded item by item: every alternative is judged by its own guard, whatever the others are
+/// called (a target list that accepts two of them gets both)
+fn same_named_alternatives(rep: &mut Report, lists: &[Vec<&'static str>]) {
+    let guards = vec![Cfg::Os("a"), Cfg::Os("b"), Cfg::Not(Box::new(Cfg::Os("a"))), Cfg::Any(vec![Cfg::Os("a"), Cfg::Os("c")]), Cfg::Feature];
+    let mut stems = Stems::default();
+    let mut rng = Rng::new(1313);
+    for level in 0..2usize {
+        for order in 0..3usize {
+            let mut files = vec![];
+            let mut st = vec![];
+            let mut groups = vec![];
+            for k in 0..guards.len() {
+                let g = &guards[(k + order * 2) % guards.len()];
+                let x = stems.fresh(&mut rng);
+                let source = if level == 0 {
+                    format!("#![cfg({})]\n#[typeshare]\npub struct Platform {{ pub {x}: u8 }}\n", g.render())
+                } else {
+                    format!("#[cfg({})]\n#[typeshare]\npub struct Platform {{ pub {x}: u8 }}\n", g.render())
+                };
+                files.push(SrcFile { path: format!("src/platform_{k}.rs"), source });
+                st.push(x);
+                groups.push(vec![g.clone()]);
+            }
+            let all_src: String = files.iter().map(|f| format!("// {}\n{}", f.path, f.source)).collect();
+            for t in lists {
+                let tos: Vec<String> = t.iter().map(|s| s.to_string()).collect();
+                let out = run_lib(&files, LangId::Ts, &LangCfg::default(), false, &tos);
+                rep.count("library_runs", 1);
+                rep.count("same_named_alternative_runs", 1);
+                let present = match &out {
+                    LibOutcome::Ok(_) => match present_stems(out.single().unwrap_or("")) {
+                        Some(p) => p,
+                        None => {
+                            rep.inconclusive("typescript-output-not-parsed", json!({"source": all_src.chars().take(400).collect::<String>()}));
+                            continue;
+                        }
+                    },
+                    LibOutcome::GenError(_) => BTreeSet::new(),
+                    other => {
+                        rep.inconclusive("typeshare-failed", json!({"outcome": other.describe()}));
+                        continue;
+                    }
+                };
+                judge(level, &groups, &st, t, &present, "library-same-named-alternatives", rep, &all_src);
+            }
+        }
+    }
+}
+
 /// A guarded member inside a guarded parent (field in a struct variant, field in a struct): each level is judged on its
 /// own attributes - the member is generated iff the parent passes by its guard and the member passes by its own
 fn two_levels(rep: &mut Report, lists: &[Vec<&'static str>]) {
@@ -593,6 +643,7 @@ pub fn run(ctx: &Ctx) -> (Spec, Report) {
     });
     rep.merge(r2);
     two_levels(&mut rep, &lists);
+    same_named_alternatives(&mut rep, &lists);
     rejected_payload_variants(&mut rep, &lists);
     let _ = std::fs::remove_dir_all(&scratch);
     let spec = Spec {
